@@ -107,8 +107,10 @@ func (s *inHeaderStats) HandleRPC(ctx context.Context, ev stats.RPCStats) {
 		s.mu.Unlock()
 	}
 }
-func (s *inHeaderStats) TagConn(ctx context.Context, _ *stats.ConnTagInfo) context.Context { return ctx }
-func (s *inHeaderStats) HandleConn(context.Context, stats.ConnStats)                       {}
+func (s *inHeaderStats) TagConn(ctx context.Context, _ *stats.ConnTagInfo) context.Context {
+	return ctx
+}
+func (s *inHeaderStats) HandleConn(context.Context, stats.ConnStats) {}
 
 type c04Op struct {
 	kind string // SetHeader SendHeader SetTrailer SendMsg
@@ -464,7 +466,7 @@ func TestC04Sys(t *testing.T) {
 					em.Emit(Rec{Idx: idx + which, Kind: "sys-unary-api", Desc: map[string]any{"i": si, "which": which, "ops": opNames, "fail": sc.fail},
 						Obs:  map[string]any{"panicked": apiPanicked, "called": apiCalled, "api": api},
 						Tags: atags,
-						Coq: fmt.Sprintf("CSysUnaryApi %d %s %s %s", which, coqKVs(wl), coqBool(apiPanicked), coqOpt(api != nil && !apiPanicked, coqMD(api)))})
+						Coq:  fmt.Sprintf("CSysUnaryApi %d %s %s %s", which, coqKVs(wl), coqBool(apiPanicked), coqOpt(api != nil && !apiPanicked, coqMD(api)))})
 				}
 			}
 		}
